@@ -360,6 +360,7 @@ func CheckC20(run *Run) {
 		ok      bool
 	}
 	byReq := map[string]map[string]*rpcObs{}
+	notEscape, sawExampleFailure := map[string]bool{}, map[string]bool{}
 	for _, ref := range refs {
 		b := s.ByID[ref.r.ID].Built
 		o := &rpcObs{leaves: map[string]map[string]bool{}, present: map[string]bool{}, ok: true}
@@ -374,6 +375,7 @@ func CheckC20(run *Run) {
 			}
 			if ro.Status != 200 || ro.Client == nil || ro.Client.Resp == nil || ro.Panic != "" {
 				o.ok = false
+				notEscape[ref.r.ID] = true
 				body, _ := hex.DecodeString(ro.RespBodyHex)
 				o.notes = append(o.notes, fmt.Sprintf("%s.%s: status %d panic=%q error=%q body=%s", ref.svc, ref.md, ro.Status, firstLine(ro.Panic), ro.Error, tail(string(body), 120)))
 				break
@@ -395,10 +397,22 @@ func CheckC20(run *Run) {
 			}
 			if !checkExamples(ref.r, msg.ProtoReflect(), &o.notes) {
 				o.ok = false
+				sawExampleFailure[ref.r.ID] = true
+				if !goEscapeExplains(ref.r, msg.ProtoReflect()) {
+					notEscape[ref.r.ID] = true
+				}
 			}
 		}
 	}
 
+	// requests whose ONLY failure is that an example text with a backslash came back as what the Go string literal
+	// it was printed into denotes
+	escapeOnly := map[string]bool{}
+	for id := range sawExampleFailure {
+		if !notEscape[id] {
+			escapeOnly[id] = true
+		}
+	}
 	var ccs []CoqCase
 	var crs []*CaseResult
 	for _, r := range reqs {
@@ -467,6 +481,11 @@ func CheckC20(run *Run) {
 	}
 	for i, cr := range crs {
 		cr.Apply(vs[i])
+		if cr.Unmodelled != "" && !cr.OracleHolds && escapeOnly[cr.ID] {
+			// outside the model (Mock.v leaves example texts with a backslash alone); the failure is exactly the
+			// interpretation of the example as a Go string literal, computed above from the responses
+			cr.Tags = []string{"z3:mock-example-go-escape"}
+		}
 		run.Results = append(run.Results, cr)
 	}
 	run.Extra["mock_calls"] = len(scenarios)
@@ -474,4 +493,64 @@ func CheckC20(run *Run) {
 	run.Extra["note"] = "value sets are the distinct values seen over calls_per_rpc calls; the selectors draw uniformly from at most 4 values, so a missing value has probability < 4*(3/4)^64"
 	DumpResults(run)
 	run.Finish()
+}
+
+// goEscapeExplains: every singular scalar field of the response that is none of its examples holds what
+// strconv.Unquote makes of one of its examples that contains a backslash; nothing else is wrong.
+func goEscapeExplains(r *Request, m protoreflect.Message) bool {
+	ok := true
+	var walk func(m protoreflect.Message)
+	walk = func(m protoreflect.Message) {
+		fs := m.Descriptor().Fields()
+		for i := 0; i < fs.Len(); i++ {
+			fd := fs.Get(i)
+			spec := findFieldSpec(r, string(m.Descriptor().FullName()), string(fd.Name()))
+			var exs []string
+			if spec != nil {
+				exs = spec.Examples
+			}
+			switch {
+			case fd.IsMap():
+				if len(exs) > 0 {
+					ok = false // examples on a map field are never used: another finding
+				}
+				m.Get(fd).Map().Range(func(k protoreflect.MapKey, v protoreflect.Value) bool {
+					if fd.MapValue().Message() != nil {
+						walk(v.Message())
+					}
+					return true
+				})
+			case fd.IsList():
+				if len(exs) > 0 && fd.Message() == nil {
+					ok = false
+				}
+			case fd.Message() != nil:
+				if m.Has(fd) {
+					walk(m.Get(fd).Message())
+				}
+			default:
+				if len(exs) == 0 {
+					continue
+				}
+				v := scalarText(fd, m.Get(fd))
+				if exampleOK(fd, exs, v) {
+					continue
+				}
+				var unq []string
+				for _, e := range exs {
+					if !strings.Contains(e, "\\") {
+						continue
+					}
+					if u, err := strconv.Unquote("\"" + e + "\""); err == nil {
+						unq = append(unq, u)
+					}
+				}
+				if !exampleOK(fd, unq, v) {
+					ok = false
+				}
+			}
+		}
+	}
+	walk(m)
+	return ok
 }
